@@ -25,7 +25,11 @@ Init == p \in Space
 Next == UNCHANGED p
 Sensible == /\ (p.con = 3 => p.fam = 2)            \* connect_with_timeout exists for TCP only
             /\ (p.tmo > 1 => p.fam = 2)            \* read_with_timeout exists for TCP only
-Emit == (Sensible /\ Index(p) % Stride = Phase) =>
+\* the constructor matrix: every way of obtaining the two streams, on both families, crossed with a
+\* timed read - always generated, whatever the stride
+Matrix == /\ p.lcs = 2 /\ p.lsc = 2 /\ p.w = 1 /\ p.r = 1 /\ p.delay = 1 /\ ~p.early /\ p.closer = "c"
+          /\ p.tmo = (IF p.fam = 2 THEN 3 ELSE 1)
+Emit == (Sensible /\ (Index(p) % Stride = Phase \/ Matrix)) =>
           PrintT(<<"P", ToJson([fam |-> Fams[p.fam], lcs |-> p.lcs, lsc |-> p.lsc, w |-> p.w, r |-> p.r, delay |-> Delays[p.delay],
                                 acc |-> Accepts[p.acc], con |-> Connects[p.con], early |-> p.early, closer |-> p.closer,
                                 tmo |-> Tmos[p.tmo]])>>)
